@@ -1439,6 +1439,14 @@ def check_C08(args):
                 outer = "SELECT f FROM a WHERE b IN %%s%s" % rng.choice(["", " GROUP BY a, b", " GROUP BY b, period(4s)"])
                 qs.append({"a": "InLaw", "sub": sub, "sql": alone, "dim": "b", "outer": outer, "mem": rng.random() < 0.7,
                            "lawId": "i%d" % ii})
+            # two IN (subquery) in one WHERE: each must get the values of its own sub-query
+            for ii in range(rng.randint(1, 2)):
+                c1 = rng.choice(["", " WHERE b = 'y'", " WHERE b <> 'y'"])
+                c2 = rng.choice(["", " WHERE a = 1", " WHERE b = 'x'", " WHERE a <> 1"])
+                outer = "SELECT f FROM a WHERE b IN %%s %s a IN %%s%s" % (rng.choice(["AND", "OR"]), rng.choice(["", " GROUP BY a, b", " GROUP BY a, period(4s)"]))
+                qs.append({"a": "InLaw", "sub": "SELECT b FROM b%s" % c1, "sql": "SELECT f FROM b%s" % c1, "dim": "b",
+                           "sub2": "SELECT a FROM a%s" % c2, "sql2": "SELECT f FROM a%s" % c2, "dim2": "a",
+                           "outer": outer, "mem": rng.random() < 0.7, "lawId": "j%d" % ii})
             # FROM (subquery): the outer query over the materialised inner result
             for fi in range(rng.randint(1, 3)):
                 iby = rng.choice([["a", "b"], ["a"], ["b"]])
@@ -1475,12 +1483,13 @@ def check_C08(args):
                     key = lambda r: json.dumps({"k": r["k"], "p": r["p"], "v": r["v"]}, sort_keys=True)
                     # a sub-query row without the dimension yields NULL, which a literal list cannot
                     # express: rows whose own dimension is missing are left out of the comparison
-                    has = lambda r: (r.get("d") or {}).get("b") is not None
+                    has = lambda r: (r.get("d") or {}).get("b") is not None and ("sub2" not in l or (r.get("d") or {}).get("a") is not None)
                     l = dict(l, nested=[r for r in l["nested"] if has(r)], literal=[r for r in l["literal"] if has(r)])
                     if sorted(map(key, l["nested"])) != sorted(map(key, l["literal"])) or ("errNested" in l) != ("errLiteral" in l):
                         rp = common.save_replay(pid, scn + "-" + l["lawId"], {"scenario": by_id[scn], "kind": "in-law", "line": l})
-                        V.violation(rp, "%s: `%s` with the sub-query %s returns %d rows, with the literal list %s it returns %d rows"
-                                    % (scn, l["outer"], l["sub"], len(l["nested"]), l["values"], len(l["literal"])))
+                        V.violation(rp, "%s: `%s` with the sub-quer%s %s returns %d rows, with the literal list%s %s it returns %d rows"
+                                    % (scn, l["outer"], "ies" if "sub2" in l else "y", l["sub"] + (" and " + l["sub2"] if "sub2" in l else ""), len(l["nested"]),
+                                       "s" if "sub2" in l else "", str(l["values"]) + (" and " + str(l["values2"]) if "sub2" in l else ""), len(l["literal"])))
                     elif l["nested"]:
                         st["nontrivial"] += 1
             for lid, lw in laws.get(scn, {}).items():
